@@ -422,3 +422,391 @@ Proof.
   intros Hn Hc. apply existsb_exists. exists c. split; [|exact Hc].
   eapply nth_error_In. exact Hn.
 Qed.
+
+(* ================================================================== *)
+(* 4. Induction over role trees; the invariant                         *)
+(* ================================================================== *)
+
+Section rtree_induction.
+  Variable Q : rtree -> Prop.
+  Hypothesis HLeaf : forall c s x, Q (Leaf c s x).
+  Hypothesis HAgg : forall s x cs, Forall Q cs -> Q (Agg s x cs).
+  Fixpoint rtree_ind2 (t : rtree) : Q t :=
+    match t with
+    | Leaf c s x => HLeaf c s x
+    | Agg s x cs =>
+        HAgg s x cs ((fix go (l : list rtree) : Forall Q l :=
+                        match l with
+                        | [] => Forall_nil Q
+                        | c :: r => Forall_cons c (rtree_ind2 c) (go r)
+                        end) cs)
+    end.
+End rtree_induction.
+
+Lemma Inv_Agg w s x cs :
+  Inv w (Agg s x cs) <->
+  ((w = true /\ existsb counted cs = false) \/ s = fold_state cs) /\
+  ((w = true /\ cs = []) \/ x = fold_status cs) /\
+  Forall (Inv w) cs.
+Proof.
+  unfold Inv. cbn [inv_b]. rewrite !andb_true_iff, !orb_true_iff, !andb_true_iff.
+  rewrite negb_true_iff, state_beq_eq, status_beq_eq, forallb_forall, Forall_forall.
+  assert (E : (match cs with [] => true | _ :: _ => false end) = true <-> cs = []).
+  { destruct cs; split; congruence. }
+  rewrite E. tauto.
+Qed.
+
+Lemma Inv_Leaf w c s x : Inv w (Leaf c s x).
+Proof. reflexivity. Qed.
+
+Lemma Forall_replace_nth {A} (Q : A -> Prop) i x l :
+  Forall Q l -> Q x -> Forall Q (replace_nth i x l).
+Proof.
+  intros Hl Hx. revert i. induction Hl as [|a l Ha Hl IH]; intros [|i]; cbn; auto.
+Qed.
+
+Lemma Forall_nth_error {A} (Q : A -> Prop) l i x :
+  Forall Q l -> nth_error l i = Some x -> Q x.
+Proof. intros H Hn. rewrite Forall_forall in H. apply H. eapply nth_error_In, Hn. Qed.
+
+Lemma replace_nth_nil_iff {A} i (x : A) l : replace_nth i x l = [] <-> l = [].
+Proof. destruct l, i; cbn; split; congruence. Qed.
+
+Lemma replace_nth_same {A} i (x : A) l : nth_error l i = Some x -> replace_nth i x l = l.
+Proof.
+  revert i; induction l as [|a l IH]; intros [|i]; cbn; intro H; try discriminate.
+  - congruence.
+  - rewrite IH by exact H. reflexivity.
+Qed.
+
+(* what one state update does to a subtree *)
+Lemma upd_state_spec w : forall p v t t' fwd,
+  upd_state p v t = (t', fwd) -> Inv w t ->
+  Inv w t' /\ counted t' = counted t /\ stat_of t' = stat_of t /\
+  match fwd with
+  | Some s => counted t' = true /\ st_of t' = s
+  | None => contrib t' = contrib t
+  end.
+Proof.
+  induction p as [|i p IH]; intros v t t' fwd Hu Hinv.
+  - destruct t as [c s x|s x cs]; cbn in Hu; inversion Hu; subst; clear Hu.
+    + split; [apply Inv_Leaf|]. split; [reflexivity|]. split; [reflexivity|].
+      destruct c; cbn; auto.
+    + repeat split; auto.
+  - destruct t as [c s x|s x cs]; cbn [upd_state] in Hu.
+    { inversion Hu; subst. repeat split; auto. }
+    destruct (nth_error cs i) as [c|] eqn:Hn.
+    2:{ inversion Hu; subst. repeat split; auto. }
+    destruct (upd_state p v c) as [c' f] eqn:Hc.
+    apply Inv_Agg in Hinv. destruct Hinv as [Hs [Hx Hcs]].
+    assert (Hic : Inv w c) by (eapply Forall_nth_error; eauto).
+    destruct (IH v c c' f Hc Hic) as [Hic' [Hcnt [Hstat Hf]]].
+    assert (Hx' : (w = true /\ replace_nth i c' cs = []) \/ x = fold_status (replace_nth i c' cs)).
+    { destruct Hx as [[Hw He]|Hx]; [left; split; [exact Hw|apply replace_nth_nil_iff; exact He]|].
+      right. rewrite (fold_status_replace_same cs i c c' Hn Hstat). exact Hx. }
+    assert (Hcs' : Forall (Inv w) (replace_nth i c' cs)) by (apply Forall_replace_nth; assumption).
+    destruct f as [inc|]; inversion Hu; subst; clear Hu.
+    + destruct Hf as [Hc1 Hc2].
+      assert (Hc0 : counted c = true) by congruence.
+      split.
+      * apply Inv_Agg. split; [|split; assumption].
+        right.
+        destruct Hs as [[_ He]|Hs].
+        { rewrite (existsb_counted_nth cs i c Hn Hc0) in He. discriminate. }
+        rewrite <- Hc2. apply merge_state_sound with (c := c); assumption.
+      * cbn. repeat split; reflexivity.
+    + split.
+      * apply Inv_Agg. split; [|split; assumption].
+        destruct Hs as [[Hw He]|Hs].
+        { left. split; [exact Hw|]. rewrite (existsb_counted_replace cs i c c' Hn Hcnt). exact He. }
+        right. rewrite (fold_state_replace_same cs i c c' Hn Hf). exact Hs.
+      * cbn. repeat split; reflexivity.
+Qed.
+
+Lemma upd_status_spec w : forall p v t t' fwd,
+  upd_status p v t = (t', fwd) -> Inv w t ->
+  Inv w t' /\ counted t' = counted t /\ st_of t' = st_of t /\
+  match fwd with
+  | Some s => stat_of t' = s
+  | None => t' = t
+  end.
+Proof.
+  induction p as [|i p IH]; intros v t t' fwd Hu Hinv.
+  - destruct t as [c s x|s x cs]; cbn in Hu; inversion Hu; subst; clear Hu.
+    + repeat split; auto.
+    + repeat split; auto.
+  - destruct t as [c s x|s x cs]; cbn [upd_status] in Hu.
+    { inversion Hu; subst. repeat split; auto. }
+    destruct (nth_error cs i) as [c|] eqn:Hn.
+    2:{ inversion Hu; subst. repeat split; auto. }
+    destruct (upd_status p v c) as [c' f] eqn:Hc.
+    apply Inv_Agg in Hinv. destruct Hinv as [Hs [Hx Hcs]].
+    assert (Hic : Inv w c) by (eapply Forall_nth_error; eauto).
+    destruct (IH v c c' f Hc Hic) as [Hic' [Hcnt [Hst Hf]]].
+    assert (Hcon : contrib c' = contrib c) by (unfold contrib; rewrite Hcnt, Hst; reflexivity).
+    assert (Hs' : (w = true /\ existsb counted (replace_nth i c' cs) = false) \/
+                  s = fold_state (replace_nth i c' cs)).
+    { destruct Hs as [[Hw He]|Hs].
+      - left. split; [exact Hw|]. rewrite (existsb_counted_replace cs i c c' Hn Hcnt). exact He.
+      - right. rewrite (fold_state_replace_same cs i c c' Hn Hcon). exact Hs. }
+    assert (Hcs' : Forall (Inv w) (replace_nth i c' cs)) by (apply Forall_replace_nth; assumption).
+    destruct f as [inc|]; inversion Hu; subst; clear Hu.
+    + split.
+      * apply Inv_Agg. split; [exact Hs'|]. split; [|exact Hcs'].
+        right.
+        destruct Hx as [[_ He]|Hx].
+        { subst cs. destruct i; discriminate. }
+        apply merge_status_sound with (c := c); assumption.
+      * cbn. repeat split; reflexivity.
+    + rewrite (replace_nth_same _ _ _ Hn). repeat split; auto. apply Inv_Agg. auto.
+Qed.
+
+(* ================================================================== *)
+(* 5. Sequential runs keep the invariant; freshly loaded trees         *)
+(* ================================================================== *)
+
+Lemma apply_op_Inv w o t : Inv w t -> Inv w (apply_op o t).
+Proof.
+  intro H. destruct o as [p v|p v]; cbn [apply_op].
+  - destruct (upd_state p v t) as [t' f] eqn:E. cbn [fst].
+    exact (proj1 (upd_state_spec w p v t t' f E H)).
+  - destruct (upd_status p v t) as [t' f] eqn:E. cbn [fst].
+    exact (proj1 (upd_status_spec w p v t t' f E H)).
+Qed.
+
+Lemma run_ops_Inv w ops : forall t, Inv w t -> Inv w (run_ops ops t).
+Proof.
+  induction ops as [|o ops IH]; intros t H; [exact H|].
+  cbn [run_ops fold_left]. apply IH, apply_op_Inv, H.
+Qed.
+
+Lemma Inv_strong_weak t : Inv false t -> Inv true t.
+Proof.
+  induction t as [c s x|s x cs IH] using rtree_ind2; [reflexivity|].
+  rewrite !Inv_Agg. intros [[[Hw _]|Hs] [[[Hw' _]|Hx] Hcs]]; try discriminate.
+  split; [right; exact Hs|]. split; [right; exact Hx|].
+  rewrite Forall_forall in *. intros c Hc. apply IH; auto.
+Qed.
+
+Lemma Inv_sub w : forall p t n, Inv w t -> get_sub p t = Some n -> Inv w n.
+Proof.
+  induction p as [|i p IH]; intros t n H Hg; cbn in Hg.
+  - inversion Hg; subst; exact H.
+  - destruct (nth_error (children t) i) as [c|] eqn:Hn; [|discriminate].
+    destruct t as [c0 s x|s x cs]; cbn in Hn; [destruct i; discriminate|].
+    apply Inv_Agg in H. destruct H as [_ [_ Hcs]].
+    eapply IH; [|exact Hg]. eapply Forall_nth_error; eauto.
+Qed.
+
+Lemma counted_fresh t : counted (fresh t) = counted t.
+Proof. destruct t; reflexivity. Qed.
+
+Lemma existsb_map_counted (f : rtree -> rtree) cs :
+  (forall c, counted (f c) = counted c) ->
+  existsb counted (map f cs) = existsb counted cs.
+Proof. intro H. induction cs as [|c cs IH]; cbn; [reflexivity|]. rewrite H, IH. reflexivity. Qed.
+
+Lemma fold_state_fresh cs :
+  fold_state (map fresh cs) = if existsb counted cs then STANDBY else INVARIANT.
+Proof.
+  rewrite fold_state_contrib.
+  induction cs as [|c cs IH]; [reflexivity|].
+  cbn [map existsb]. rewrite foldX_cons, IH. unfold contrib. rewrite counted_fresh.
+  destruct c as [cr s x|s x l]; cbn; [destruct cr|]; destruct (existsb counted cs); reflexivity.
+Qed.
+
+Lemma fold_status_fresh cs :
+  fold_status (map fresh cs) = match cs with [] => UNDEFINED | _ :: _ => INACTIVE end.
+Proof.
+  rewrite fold_status_foldS.
+  induction cs as [|c cs IH]; [reflexivity|].
+  cbn [map]. rewrite foldS_cons.
+  assert (Hc : stat_of (fresh c) = INACTIVE) by (destruct c; reflexivity).
+  rewrite Hc. destruct cs as [|d cs]; [reflexivity|].
+  cbn [map] in *. rewrite IH. reflexivity.
+Qed.
+
+(* whatever the shape, the loaded tree satisfies the weak invariant *)
+Lemma fresh_weak t : Inv true (fresh t).
+Proof.
+  induction t as [c s x|s x cs IH] using rtree_ind2; [reflexivity|].
+  cbn [fresh]. apply Inv_Agg.
+  rewrite fold_state_fresh, fold_status_fresh.
+  rewrite (existsb_map_counted fresh cs counted_fresh).
+  split; [|split].
+  - destruct (existsb counted cs); [right; reflexivity|left; auto].
+  - destruct cs; [left; auto|right; reflexivity].
+  - rewrite Forall_forall in *. intros c Hc. apply in_map_iff in Hc.
+    destruct Hc as [c0 [<- Hc0]]. apply IH, Hc0.
+Qed.
+
+(* it satisfies the strong one exactly when every aggregator has a child that counts *)
+Lemma fresh_strong_iff t : Inv false (fresh t) <-> all_counted t = true.
+Proof.
+  induction t as [c s x|s x cs IH] using rtree_ind2; [cbn; split; reflexivity|].
+  cbn [fresh all_counted]. rewrite Inv_Agg, fold_state_fresh, fold_status_fresh.
+  rewrite andb_true_iff, forallb_forall, Forall_forall.
+  rewrite Forall_forall in IH.
+  split.
+  - intros [[[Hw _]|Hs] [[[Hw' _]|Hx] Hcs]]; try discriminate.
+    split.
+    + destruct (existsb counted cs); [reflexivity|discriminate].
+    + intros c Hc. apply IH; [exact Hc|]. apply Hcs. apply in_map, Hc.
+  - intros [He Hcs]. rewrite He. split; [right; reflexivity|]. split.
+    + right. destruct cs; [discriminate|reflexivity].
+    + intros c Hc. apply in_map_iff in Hc. destruct Hc as [c0 [<- Hc0]].
+      apply IH; auto.
+Qed.
+
+(* ================================================================== *)
+(* 6. The caches are determined by the leaves                          *)
+(* ================================================================== *)
+
+Definition is_nil {A} (l : list A) : bool := match l with [] => true | _ :: _ => false end.
+
+Fixpoint canonw (w : bool) (t : rtree) : rtree :=
+  match t with
+  | Leaf _ _ _ => t
+  | Agg s x cs =>
+      let cs' := map (canonw w) cs in
+      Agg (if w && negb (existsb counted cs) then s else fold_state cs')
+          (if w && is_nil cs then x else fold_status cs') cs'
+  end.
+
+(* forget every cache an update may write *)
+Fixpoint erasew (w : bool) (t : rtree) : rtree :=
+  match t with
+  | Leaf _ _ _ => t
+  | Agg s x cs =>
+      Agg (if w && negb (existsb counted cs) then s else STANDBY)
+          (if w && is_nil cs then x else INACTIVE) (map (erasew w) cs)
+  end.
+
+Lemma canonw_false t : canonw false t = canon t.
+Proof.
+  induction t as [c s x|s x cs IH] using rtree_ind2; [reflexivity|].
+  cbn [canonw canon andb].
+  assert (E : map (canonw false) cs = map canon cs).
+  { apply map_ext_in. rewrite Forall_forall in IH. exact IH. }
+  rewrite E. reflexivity.
+Qed.
+
+Lemma counted_canonw w t : counted (canonw w t) = counted t.
+Proof. destruct t; reflexivity. Qed.
+Lemma counted_erasew w t : counted (erasew w t) = counted t.
+Proof. destruct t; reflexivity. Qed.
+
+Lemma is_nil_map {A B} (f : A -> B) l : is_nil (map f l) = is_nil l.
+Proof. destruct l; reflexivity. Qed.
+
+Lemma is_nil_true {A} (l : list A) : is_nil l = true <-> l = [].
+Proof. destruct l; cbn; split; congruence. Qed.
+
+Lemma Inv_canonw w t : Inv w t -> canonw w t = t.
+Proof.
+  induction t as [c s x|s x cs IH] using rtree_ind2; [reflexivity|].
+  intro H. apply Inv_Agg in H. destruct H as [Hs [Hx Hcs]].
+  cbn [canonw].
+  assert (E : map (canonw w) cs = cs).
+  { rewrite <- (map_id cs) at 2. apply map_ext_in. intros c Hc.
+    rewrite Forall_forall in IH, Hcs. apply IH; auto. }
+  rewrite E. f_equal.
+  - destruct Hs as [[-> He]|Hs]; [rewrite He; reflexivity|].
+    destruct (w && negb (existsb counted cs)); congruence.
+  - destruct Hx as [[-> He]|Hx]; [subst cs; reflexivity|].
+    destruct (w && is_nil cs); congruence.
+Qed.
+
+Lemma canonw_Inv w t : Inv w (canonw w t).
+Proof.
+  induction t as [c s x|s x cs IH] using rtree_ind2; [reflexivity|].
+  cbn [canonw]. apply Inv_Agg.
+  rewrite (existsb_map_counted (canonw w) cs (counted_canonw w)).
+  split; [|split].
+  - destruct w; cbn [andb]; [|right; reflexivity].
+    destruct (existsb counted cs); cbn [negb]; [right; reflexivity|left; auto].
+  - destruct w; cbn [andb]; [|right; reflexivity].
+    destruct cs; cbn [is_nil]; [left; auto|right; reflexivity].
+  - rewrite Forall_forall in *. intros c Hc. apply in_map_iff in Hc.
+    destruct Hc as [c0 [<- Hc0]]. apply IH, Hc0.
+Qed.
+
+Lemma canonw_erasew w t : canonw w (erasew w t) = canonw w t.
+Proof.
+  induction t as [c s x|s x cs IH] using rtree_ind2; [reflexivity|].
+  cbn [erasew canonw].
+  rewrite (existsb_map_counted (erasew w) cs (counted_erasew w)), is_nil_map.
+  assert (E : map (canonw w) (map (erasew w) cs) = map (canonw w) cs).
+  { rewrite map_map. apply map_ext_in. rewrite Forall_forall in IH. exact IH. }
+  rewrite E.
+  destruct (w && negb (existsb counted cs)), (w && is_nil cs); reflexivity.
+Qed.
+
+Lemma map_replace_nth {A B} (g : A -> B) i x l :
+  map g (replace_nth i x l) = replace_nth i (g x) (map g l).
+Proof. revert i; induction l as [|a l IH]; intros [|i]; cbn; try reflexivity. rewrite IH. reflexivity. Qed.
+
+Lemma upd_state_counted : forall p v t, counted (fst (upd_state p v t)) = counted t.
+Proof.
+  intros [|i p] v [c s x|s x cs]; cbn; try reflexivity.
+  destruct (nth_error cs i); [|reflexivity].
+  destruct (upd_state p v r) as [c' [f|]]; reflexivity.
+Qed.
+
+Lemma upd_state_fwd_counted : forall p v t s, snd (upd_state p v t) = Some s -> counted t = true.
+Proof.
+  intros [|i p] v [c s0 x|s0 x cs] s; cbn; try discriminate; try reflexivity.
+  destruct c; [reflexivity|discriminate].
+Qed.
+
+Lemma upd_status_counted : forall p v t, counted (fst (upd_status p v t)) = counted t.
+Proof.
+  intros [|i p] v [c s x|s x cs]; cbn; try reflexivity.
+  destruct (nth_error cs i); [|reflexivity].
+  destruct (upd_status p v r) as [c' [f|]]; reflexivity.
+Qed.
+
+Lemma write_leaf_counted v t : counted (write_leaf_f v t) = counted t.
+Proof. destruct t; reflexivity. Qed.
+Lemma write_status_counted v t : counted (write_status_f v t) = counted t.
+Proof. destruct t; reflexivity. Qed.
+
+Lemma map_at_counted f : (forall t, counted (f t) = counted t) ->
+  forall p t, counted (map_at p f t) = counted t.
+Proof.
+  intros Hf [|i p] t; cbn; [apply Hf|].
+  destruct t as [c s x|s x cs]; [reflexivity|]. destruct (nth_error cs i); reflexivity.
+Qed.
+
+Lemma nth_error_map_some {A B} (g : A -> B) l i x :
+  nth_error l i = Some x -> nth_error (map g l) i = Some (g x).
+Proof. intro H. rewrite nth_error_map, H. reflexivity. Qed.
+Lemma nth_error_map_none {A B} (g : A -> B) l i :
+  nth_error l i = None -> nth_error (map g l) i = None.
+Proof. intro H. rewrite nth_error_map, H. reflexivity. Qed.
+
+Lemma is_nil_replace_nth {A} i (x : A) l : is_nil (replace_nth i x l) = is_nil l.
+Proof. destruct l, i; reflexivity. Qed.
+
+Lemma erasew_upd_state w : forall p v t,
+  erasew w (fst (upd_state p v t)) = map_at p (write_leaf_f v) (erasew w t).
+Proof.
+  induction p as [|i p IH]; intros v t.
+  - destruct t; reflexivity.
+  - destruct t as [c s x|s x cs]; [reflexivity|].
+    cbn [upd_state erasew map_at].
+    destruct (nth_error cs i) as [c|] eqn:Hn.
+    2:{ rewrite (nth_error_map_none (erasew w) cs i Hn). reflexivity. }
+    rewrite (nth_error_map_some (erasew w) cs i c Hn).
+    specialize (IH v c).
+    pose proof (upd_state_counted p v c) as Hcnt.
+    pose proof (upd_state_fwd_counted p v c) as Hfc.
+    destruct (upd_state p v c) as [c' f]. cbn [fst snd] in *.
+    rewrite <- IH, <- map_replace_nth.
+    destruct f as [inc|]; cbn [fst erasew];
+      rewrite (existsb_counted_replace cs i c c' Hn Hcnt), is_nil_replace_nth.
+    + assert (He : existsb counted cs = true).
+      { eapply existsb_counted_nth; [exact Hn|]. eapply Hfc. reflexivity. }
+      rewrite He. cbn [negb]. rewrite andb_false_r. reflexivity.
+    + reflexivity.
+Qed.
